@@ -92,7 +92,9 @@ def parseBfOffset (spec : Bytes) (width : Nat) : Option Int :=
   | 35 :: r => match parseInt32 r with
     | some n => if n < 0 then none else some (n * width)
     | none => none
-  | _ => parseInt32 spec
+  | _ => match parseInt32 spec with
+    | some n => if n < 0 then none else some n
+    | none => none
 
 def errBfType : Value := .error (sb "ERR Invalid bitfield type. Use something like i16 u8. Note that u64 is not supported but i64 is.")
 def errBfOffset : Value := .error (sb "ERR bit offset is not an integer or out of range")
@@ -163,7 +165,6 @@ def bfStep (c : Ctx) (buf : Bytes) (p : BfParsed) : Bytes × Bool × Value :=
       (buf', true, .int (if p.kind == .incrby then v else n))
 
 def cmdBitfieldParsed (c : Ctx) (db : Db) (k : Bytes) (ps : List BfParsed) : R :=
-  if ps.any (fun p => decide (p.off < 0)) then R.crashed db "bitfield: negative bit offset indexes before the buffer" else
   let maxEnd := (ps.filter (·.kind != .get)).foldl (fun m p => max m (p.off.toNat + p.width - 1)) 0
   let length : Nat := maxEnd / 8 + 1
   if (Int.ofNat length) > hugeAlloc then R.crashed db "bitfield: make([]byte, length) for a far offset" else
@@ -210,6 +211,7 @@ def cmdBitCount (c : Ctx) (db : Db) (k : Bytes) (range : Option (Int × Int × B
   match db.live c.now k with
   | none => R.ok db (.int 0)
   | some { val := .str b, .. } =>
+    if b.isEmpty then R.ok db (.int 0) else
     let bitMode := match range with | some (_, _, m) => m | none => false
     let length : Int := if bitMode then b.length * 8 else b.length
     let start : Int := match range with | some (s, _, _) => s | none => 0
